@@ -324,6 +324,10 @@ impl Indexer {
             let mut w = BodyWalker::new();
             w.visit_block(b);
             v["body_open"] = json!(start(b.brace_token.span.open()));
+            // the tail expression of the body (a final expression statement without `;`), if any
+            if let Some(syn::Stmt::Expr(e, None)) = b.stmts.last() {
+                v["tail_expr"] = rng(e.span());
+            }
             v["body_close"] = json!(end(b.brace_token.span.close()));
             v["loops"] = Value::Array(w.loops);
             v["closures"] = Value::Array(w.closures);
